@@ -28,6 +28,12 @@ func main() {
 	switch os.Args[1] {
 	case "l0":
 		err = runL0(seed, n, dir)
+	case "l1":
+		modes := []string{"rows", "plain", "cb"}
+		if len(os.Args) > 5 {
+			modes = os.Args[5:]
+		}
+		err = runL1(seed, n, dir, modes)
 	default:
 		err = fmt.Errorf("unknown level %s", os.Args[1])
 	}
